@@ -12,6 +12,8 @@ pub mod math;
 pub mod model;
 pub mod parser;
 pub mod report;
+#[cfg(tackler_verif)]
+pub mod verif;
 
 pub mod tackler {
     pub type Error = Box<dyn std::error::Error + Send + Sync>;
